@@ -1085,6 +1085,15 @@ class Engine:
             return z3.IntVal(intern_str(v.s))
         if isinstance(v, VStrSym):
             return v.t
+        if isinstance(v, VTuple) and len(v.items) == 2:
+            # pair of non-negative integers (e.g. WeightKey(core, depth)): injective pairing a * 2**40 + b; the range facts that make
+            # it injective are side obligations (a failure is a limit of the model, not a violation)
+            a, b = self.as_int(self.force(v.items[0])), self.as_int(self.force(v.items[1]))
+            if a is not None and b is not None:
+                cond = z3.And(a.t >= 0, b.t >= 0, b.t < (1 << 40))
+                if not z3.is_true(simp(cond)) and not self.in_clause and not self.in_quant:
+                    self.prove(cond, "model_limit", "tuple map key components within [0, 2**40)", self.cur_line)
+                return a.t * (1 << 40) + b.t
         iv = self.as_int(v)
         if iv is not None:
             return iv.t
